@@ -7,8 +7,8 @@ import (
 	"github.com/KevoDB/kevo/pkg/zzverif/vsym"
 )
 
-// VerifWALRoundTrip: append up to 2 entries (put/delete), close, replay: same entries in order.
-func VerifWALRoundTrip() {
+// VerifC09_RoundTripSmall: append up to 2 entries (put/delete), close, replay: same entries in order.
+func VerifC09_RoundTripSmall() {
 	cfg := &config.Config{WALSyncMode: config.SyncMode(vsym.IntRange("sync", 0, 2)), WALSyncBytes: 1024}
 	w, err := NewWAL(cfg, vsym.Dir()+"/wal")
 	vsym.Assert(err == nil, "NewWAL failed")
